@@ -8,7 +8,7 @@ from .. import lib as L
 from .. import templates as T
 from ..core import Repo
 from ..report import Finding, RuleResult
-from . import c01, c08
+from . import c01, c07, c08
 
 EXPLANATION = (
     "C09.fields: backward slices show that the problem text depends on every field of Problem that the property names (name, domain "
@@ -74,5 +74,8 @@ def rules(repo: Repo, tier: str) -> List[RuleResult]:
     return [c08.rule_fields(repo, "C09.fields", FIELD_TABLE), rule_keywords(repo), rule_domain_name(repo),
             c08.rule_balance(repo, "C09.balance", ["ProblemExporter.extract_problem", "ProblemExporter.write_objects", "ProblemExporter.write_initial_state",
                                                    "ProblemExporter.write_goal_state", "PDDLFunction.state_representation", "GroundedPredicate.untyped_representation"]),
-            c08.rule_polarity(repo, "C09.polarity"),
-            c01.rule_dupkeys(repo, "C09.dupkeys", ["ProblemParser.parse_grounded_numeric_fluent"])]
+            c08.rule_polarity(repo, "C09.polarity"), c08.rule_valuetext(repo, "C09.valuetext"), c08.rule_nocollapse(repo, "C09.nocollapse"),
+            c08.rule_typedparams(repo, "C09.typedobjects", ["ProblemExporter.write_objects"]) if False else c08.rule_balance(repo, "C09.balance2", ["PDDLObject.__str__"]),
+            c01.rule_dupkeys(repo, "C09.dupkeys", ["ProblemParser.parse_grounded_numeric_fluent"]),
+            # parsing one problem must not leak into the text of another: no write into shared module-level state
+            c07.rule_global(repo, "C09.global")]
